@@ -61,6 +61,25 @@ struct Ext {
     for (char c : redefined) r += c;
     return r;
   }
+  // inverse of dump()
+  bool parse(const std::string& d) {
+    s.clear(); o.clear(); redefined.clear();
+    size_t a = d.find('|');
+    size_t b = d.rfind('|');
+    if (a == std::string::npos || b == a) return false;
+    for (size_t i = 0; i + 1 < a; i += 2) s[d[i]] = d[i + 1] - '0';
+    std::string cells = d.substr(a + 1, b - a - 1);
+    size_t p = 0;
+    while (p < cells.size()) {
+      size_t e = cells.find(';', p);
+      if (e == std::string::npos) break;
+      std::string item = cells.substr(p, e - p);
+      if (item.size() >= 2) o[item[0]] = item.substr(2);
+      p = e + 1;
+    }
+    for (size_t i = b + 1; i < d.size(); ++i) redefined.insert(d[i]);
+    return true;
+  }
 };
 
 inline const RuleDef& defOf(const World& w, const Ext& e, char k) {
